@@ -99,8 +99,7 @@ def crash_sites(stderr_path):
         body = chunks[i - 1]
         frames = [m.group(1) + " " + m.group(2) for m in re.finditer(r"#\d+ 0x[0-9a-f]+ in (\S+).*? (\S*/asmjit/[^\s]+)", body)]
         err = re.search(r"ERROR: AddressSanitizer: (\S+)", body) or re.search(r"runtime error: ([^\n]{0,90})", body)
-        frames = [re.sub(r"^.*?/asmjit/", "asmjit/", f.replace("asmjit::v1_21::", "")) if False else f.replace("asmjit::v1_21::", "") for f in frames]
-        frames = [re.sub(r" \S*?/asmjit/", " asmjit/", f) for f in frames]
+        frames = [re.sub(r" \S*?/asmjit/", " asmjit/", f.replace("asmjit::v1_21::", "")) for f in frames]
         res[int(chunks[i])] = (err.group(1) if err else "signal") + " at " + " <- ".join(frames[:3])
     return res
 
@@ -120,6 +119,11 @@ def classify(clean, ex, lineno, sites=None):
     if cls == "none":
         kind = "clean-run-rejected"
         what = f"the failure-free run itself is rejected at {json.dumps(bad)[:160]}"
+    elif lineno == ex[0][0]:
+        # the Reset line itself was not consumable: the ghost of the clean run is missing (its execution was rejected)
+        kind = "unjudged"
+        injected_in = "-"
+        what = "not judged: the clean execution of this file was rejected, so there is nothing to compare with"
     elif e == "ABORT" or e in ("Reset", "End", "END-OF-FILE"):
         # the call in progress = the one after the last recorded call of the current phase
         ph = calls[-1]["ph"] if calls else "F"
@@ -260,15 +264,19 @@ def run(ctx):
             ctx.add_sample({"file": os.path.basename(tr), "events": recs[1:3] + [r for r in recs if r.get("f")][:2]})
 
     # ---- verdicts ----
+    # a candidate is reported only if it repeats: every new rejection is re-validated in isolation (clean execution +
+    # that execution), in parallel
+    fresh = [(k, f) for k, f in findings.items() if k not in ctx.known]
+    with concurrent.futures.ThreadPoolExecutor(max_workers=4) as ex:
+        confirmed = list(ex.map(lambda kf: run_validation(ctx, kf[1]["replay"], "confirm_" + re.sub(r"[^A-Za-z0-9]", "_", kf[0])[:60]), fresh))
+    for (key, f), rej2 in zip(fresh, confirmed):
+        if not rej2:
+            raise Broken(f"rejection {key} not repeatable in isolation")
     for key, f in findings.items():
         msg = f"{f['text']} [{f['count']} executions; positions {f['ks']}; {dict(f['tags'])}]"
         if key in ctx.known:
             ctx.known_finding(key, msg)
         else:
-            # a candidate is reported only if it repeats: re-validate the single execution in isolation
-            rej2 = run_validation(ctx, f["replay"], "confirm")
-            if not rej2:
-                raise Broken(f"rejection {key} not repeatable in isolation")
             ctx.violation(f"key={key} {msg}", f["replay"])
     ctx.evaluations = nruns
     ctx.extra["requests_per_workload"] = {w: {k: v for k, v in c.items() if k in ("arena", "heap", "vm", "jobs")} for w, c in counts.items()}
